@@ -130,8 +130,21 @@ class EscapeAnalysis:
                 continue
             for h in t.handlers:
                 if self.handler_catches(f, h, sup):
+                    if self.transparent(h):
+                        break  # cleanup-and-re-raise: the exception continues outwards
                     return True
         return False
+
+    @staticmethod
+    def transparent(h: ast.ExceptHandler) -> bool:
+        """A handler that always ends by re-raising what it caught (`except X: <cleanup>; raise`)."""
+        if not h.body or not (isinstance(h.body[-1], ast.Raise) and h.body[-1].exc is None):
+            return False
+        for st in h.body[:-1]:
+            for n in ast.walk(st):
+                if isinstance(n, (ast.Return, ast.Raise, ast.Break, ast.Continue)):
+                    return False
+        return True
 
     def handler_catches(self, f, h: ast.ExceptHandler, sup: List[str]) -> bool:
         if h.type is None:
@@ -225,7 +238,10 @@ class EscapeAnalysis:
                         # bare re-raise: classes of the enclosing handler
                         for entry in self._enclosing_tries(f).get(id(n), []):
                             if entry[1] == "handler":
-                                classes = self.handler_types(f, entry[2])
+                                if self.transparent(entry[2]) and entry[2].body[-1] is n:
+                                    classes = []  # nothing new: what the body raised keeps propagating (see caught())
+                                else:
+                                    classes = self.handler_types(f, entry[2])
                                 break
                     else:
                         c = self.resolve_exc(f, n.exc)
